@@ -6,8 +6,8 @@ import BM.Proofs.CssAbs
   handler table regenerated from css/handlers.go, with the regexps whose alphabet closure is
   proved in Props/C18 as clean leaves.  Result: for every property whose handler the analysis
   accepts (199 of the 213 table entries, 158 of the 169 handler functions) and **every value**,
-  the default handler accepts the value only if it contains no backslash, no angle bracket and no
-  at-sign (`C18_handlers_clean`).  The handlers it does not accept are pinned by name
+  the default handler accepts the value only if it contains no backslash, angle bracket, at-sign,
+  semicolon or brace (`C18_handlers_clean`).  The handlers it does not accept are pinned by name
   (`css_unanalysed`), so a change that makes another handler opaque to the analysis — or adds a
   handler — breaks an obligation instead of silently shrinking the claim.
 -/
@@ -56,7 +56,7 @@ theorem css_unanalysed :
        "TransformOriginHandler"] := by decide
 
 /-- the hostile bytes are outside the alphabet of the clean regexps -/
-theorem inertQ_excludes : ∀ c ∈ [92, 60, 62, 64], Re.inRanges c inertQ = false := by decide
+theorem inertQ_excludes : ∀ c ∈ [92, 60, 62, 64, 59, 123, 125], Re.inRanges c inertQ = false := by decide
 
 theorem css_soundCtx : SoundCtx cssA cssCtx := by
   refine ⟨rfl, ?_⟩
@@ -90,7 +90,7 @@ theorem css_globals_rel (tv : Targets) : Rel cssA tv cssGlobals cssCtx.globals :
   · cases hn
 
 /-- **C18, the handler bodies**: every handler function the analysis accepts returns true only on
-    values without backslash, angle bracket or at-sign — for every value, whatever the fuel -/
+    values without backslash, angle bracket, at-sign, semicolon or brace — for every value, whatever the fuel -/
 theorem C18_handler_functions_clean (f : String) (hf : f ∈ cssA.closedFns) (k : Nat) (v : Bytes)
     (h : callFn cssCtx k f v = some true) : Clean v := by
   have hall := handlers_sound cssA cssCtx css_soundCtx cssGlobals css_globals_rel 64 css_bodies_ok k
@@ -98,7 +98,8 @@ theorem C18_handler_functions_clean (f : String) (hf : f ∈ cssA.closedFns) (k 
 
 /-- **C18, the table**: for every property of the default table whose handler is accepted — all but
     the fourteen of `css_table_unanalysed` — and every value, `css.GetDefaultHandler(prop)(value)`
-    is true only if the value holds no backslash (so no CSS escape), no `<` or `>` and no `@` -/
+    is true only if the value holds no backslash (so no CSS escape), no `<` or `>`, no `@`, and no `;`, `{`
+    or `}` (so it cannot end the declaration or the block it is written into) -/
 theorem C18_handlers_clean (prop v : Bytes) (fn : String)
     (htab : Gen.defaultStyleHandlers.find? (·.1 == prop) = some (prop, fn)) (hfn : fn ∈ cssA.closedFns)
     (h : defaultHandler prop v = true) : Clean v := by
